@@ -12,6 +12,12 @@ CLAIMED = {
         "note": "Assumes the Python tokenizer, int(text, 0) and decimal.Decimal behave as documented; constructor tables are bounded in token count (5 quick / 7 thorough).",
         "design_ref": "DESIGN.md section 4, C01",
     },
+    "C02": {
+        "technique": "per-type decision tables by abstract interpretation: Integer range selection and value path, Decimal separator translation over character classes, Choice/Constant exactness, DateTime layout table and strptime path, RegEx/Pattern flags and anchoring, length-derived integer range over region representatives, Choice/Constant rule automata",
+        "text": "Each field type's decision structure is decided against the statement for all abstract inputs (library calls stubbed with every outcome); the length-derived integer range equals 'text has between lower and upper characters' on every boundary value of every region of (lower, upper).",
+        "note": "int(), Decimal(), strptime, re and fnmatch semantics trusted; Decimal strings bounded at 4 (5) characters over 3 classes; create_range_from_length decided through region representatives with an affinity side condition.",
+        "design_ref": "DESIGN.md section 4, C02",
+    },
     "C03": {
         "technique": "decision table of the guard template AbstractFieldFormat.validated by abstract interpretation (EMPTY/BLANKS/TEXT x format x flags x per-character verdicts x length orderings) plus override / guard-state / argument-forwarding rules over all field classes",
         "text": "The guard template is decided for every abstract cell, format, flag and collaborator outcome; no shipped field class can bypass it (no override, no re-assignment of guard state, flags forwarded unchanged).",
@@ -48,6 +54,12 @@ CLAIMED = {
         "note": "Plugin checks must implement reset() completely.",
         "design_ref": "DESIGN.md section 4, C08",
     },
+    "C09": {
+        "technique": "decision tables of Cid.read / add_data_format_row / add_field_format_row / add_check_row / validated_field_name / IsUnique rule parsing by abstract interpretation with stubbed constructors; call-graph rule that every InterfaceError leaving Cid.read is located",
+        "text": "Row dispatch, cursor advance, row-order acceptance (every sequence of up to 3 (4) row kinds), field-name alphabet, empty mark, length ladder per format, example validation, duplicate refusal, IsUnique rule automaton; all rejections are InterfaceErrors at the offending row; every reachable InterfaceError raise carries a location or is completed by the field-construction wrapper.",
+        "note": "Completeness against an external defect catalogue is not claimed; field/check constructors are C01/C02/C05's.",
+        "design_ref": "DESIGN.md section 4, C09",
+    },
     "C10": {
         "technique": "exception-escape fixpoint over the resolved call graph (raise sites, frozen external-raiser table, assert triage, handler lattice) at every API entry point; error-mode token tables of the range constructors",
         "text": "For each entry point (CID loading, rows/validate, Reader, Writer, the command line's process) every escaping exception class is inside the allowed cutplace/OSError set or named with its raising site and call chain; 146 value-dependent asserts triaged; range constructors never raise anything but InterfaceError on any token sequence.",
@@ -59,6 +71,12 @@ CLAIMED = {
         "text": "Every (format, property, value) from the pools is set to the documented internal value or refused with a located InterfaceError, never another exception; defaults as documented; character spellings go through the same helpers as ranges; the three documented contradictions are refused by validate; documented properties and quote characters agree with the code.",
         "note": "Value pools are the module's own constant sets plus representative invalid values; codec names are decided by codecs.lookup.",
         "design_ref": "DESIGN.md section 4, C11",
+    },
+    "C12": {
+        "technique": "sibling agreement of the csv dialect handed to reader and writer (abstract interpretation with recording csv stubs), decision table of the dialect builder, consistency matrix of DataFormat.validate against the roles a csv dialect can disambiguate, newline='' rule",
+        "text": "Reader and writer always get the same dialect derived from the data format; escape=quote -> doublequote, else escapechar; strict on; every accepted configuration keeps item delimiter distinct from quote, from a separate escape character, from CR/LF and from the line delimiter; both file opens use newline=''.",
+        "note": "The csv module's quoting/escaping algorithm itself is trusted: round-trip equality is a runtime relation and is NOT decided, only the conditions cutplace must establish for it.",
+        "design_ref": "DESIGN.md section 4, C12",
     },
     "C13": {
         "technique": "abstract interpretation of rowio.fixed_rows (incl. nested delimiter automaton and push-back) on every abstract character stream over the class abstraction {CR, LF, other} up to a length bound; oracle = the statement (identity-tracked reproduction of the input, reference segmentation)",
